@@ -14,6 +14,8 @@ CONSTANTS
   LockNames <- T_Empty
   CallerIds <- T_Empty
   Files <- T_EmptySeq
+  AliasGroups <- MC_AliasGroups
+  WithAlias = FALSE
   WithEdits = FALSE
   WithReload = FALSE
   Lookups = FALSE
